@@ -179,7 +179,14 @@ class G(object):
     # ---- rpms / modules / extra files ---------------------------------------------------------------------------
     def nevra(self, arch=None, epoch=None):
         r = self.rng
-        name = "-".join(self.word("abc019._+", 1, 5) for _ in range(r.randint(1, 3)))
+        # half of the names are made of tokens that occur in real package names (sub-package suffixes, arch-like and
+        # category-like words), the other half of random characters
+        real = ["kernel", "debug", "debuginfo", "debugsource", "devel", "libs", "common", "core", "python3", "src", "noarch", "source",
+                "binary", "x86_64", "modules", "extra", "doc", "static", "rpm", "0", "1.2"]
+        if r.random() < 0.5:
+            name = "-".join(r.choice(real) for _ in range(r.randint(1, 4)))
+        else:
+            name = "-".join(self.word("abc019._+", 1, 5) for _ in range(r.randint(1, 3)))
         e = r.choice([0, 1, 12]) if epoch is None else epoch
         return "%s-%d:%s-%s.%s" % (name, e, self.word("019.a~^", 1, 5), self.word("019.el_", 1, 6),
                                    arch or r.choice(["x86_64", "noarch", "i686"]))
